@@ -17,11 +17,35 @@ WITNESS = {
     "lsh": ("src/vector_ops.rs", "4 buckets x hyperplane counts {0..8,61,62,63,64,100} x probe counts 0..200"),
     "pushdown": ("src/optimizer/mod.rs", "left width <= 3, right arity <= 4, every key subset of size <= 2, every tested column and column pair"),
     "matches": ("src/schema/mod.rs", "every schema type x 14 representative values (vector lengths 0..3)"),
-    "codegen_guard": ("src/code_generator/mod.rs", "every plan tree of depth <= 3 over the 11 constructible node kinds (Union of 2)"),
+    "codegen_guard": ("src/code_generator/mod.rs", "every plan tree of depth <= 2 over the 10 constructible node kinds (Union of 2)"),
+    # always-run bounded stand-ins for functions that are outside both verifiers' reach
+    "standin_hash_index": ("src/hash_index.rs", "every history of <= 5 insert/remove/rebuild operations over 4 tuples, every probe key"),
+    "standin_validator": ("src/schema/validator.rs", "batches of 1..1000 tuples x 3 columns, <= 1 bad tuple (8 kinds) at first/middle/last position"),
+    "standin_pagination": ("src/protocol/handler.rs", "pagination: len <= 6, limit/offset in {None,0..8}; sort: <= 4 rows from 11 mixed-kind values, both directions"),
+    "standin_workers": ("src/code_generator/mod.rs", "20 programs covering every operator class x workers {2,3,4,8} vs 1 worker, 42-edge graph"),
+    "standin_delete": ("src/storage_engine/mod.rs", "relations of 0..300 tuples x 7 delete batches mixing present/absent/repeated tuples"),
+    "standin_histories_clean": ("src/storage_engine/mod.rs", "every clean insert/delete history of length <= 5 over 2 tuples, save, restart"),
+    "standin_histories_dirty": ("src/storage_engine/mod.rs", "every history of length <= 3 over 2 tuples with a re-insert or an absent delete, save, restart"),
 }
 
 
-def run(unit, repo, root, synced=False):
+def inject_all(units, root):
+    """append the test modules of `units` (grouped per source file so that the final text is stable)"""
+    per_file = {}
+    for u in units:
+        per_file.setdefault(WITNESS[u][0], []).append(u)
+    for rel, us in per_file.items():
+        p = os.path.join(kani_run.WORK, rel)
+        with open(p, "rb") as f:
+            data = f.read()
+        for u in sorted(us):
+            add = ("\n#[cfg(test)]\n#[path = \"%s/witness/%s.rs\"]\nmod verif_witness_%s;\n" % (root, u, u)).encode()
+            if add not in data:
+                data += add
+        kani_run.write_stable(p, data)
+
+
+def run(unit, repo, root, synced=False, group=None):
     """-> {"status": found|none|error, "detail": str, "bound": str, "cmd": str, "wall_s": float}"""
     if unit not in WITNESS or not os.path.isfile(os.path.join(root, "witness", unit + ".rs")):
         return {"status": "error", "detail": "no witness module for unit %s" % unit}
@@ -29,13 +53,7 @@ def run(unit, repo, root, synced=False):
     t0 = time.time()
     if not synced:
         kani_run.sync(repo)
-    p = os.path.join(kani_run.WORK, rel)
-    with open(p, "rb") as f:
-        orig = f.read()
-    add = ("\n#[cfg(test)]\n#[path = \"%s/witness/%s.rs\"]\nmod verif_witness_%s;\n" % (root, unit, unit)).encode()
-    if add not in orig:
-        with open(p, "wb") as f:
-            f.write(orig + add)
+    inject_all(group or [unit], root)
     env = dict(os.environ, CARGO_NET_OFFLINE="true")
     cmd = ["cargo", "test", "--offline", "--lib", "--target-dir", kani_run.TEST_TARGET,
            "verif_witness_%s::verif_witness" % unit, "--", "--nocapture", "--test-threads", "1"]
